@@ -228,10 +228,14 @@ func vfGenIPF(t *rapid.T, label string, pool []string) *vfIPF {
 	na := rapid.IntRange(0, 2).Draw(t, label+".na")
 	nb := rapid.IntRange(0, 2).Draw(t, label+".nb")
 	for i := 0; i < na; i++ {
-		f.Allow = append(f.Allow, rapid.SampledFrom(pool).Draw(t, label+".allow"))
+		if e := rapid.SampledFrom(pool).Draw(t, label+".allow"); !vfIn(e, f.Allow) { // uniqueItems
+			f.Allow = append(f.Allow, e)
+		}
 	}
 	for i := 0; i < nb; i++ {
-		f.Block = append(f.Block, rapid.SampledFrom(pool).Draw(t, label+".block"))
+		if e := rapid.SampledFrom(pool).Draw(t, label+".block"); !vfIn(e, f.Block) {
+			f.Block = append(f.Block, e)
+		}
 	}
 	return f
 }
